@@ -221,7 +221,9 @@ def inverse_topology(outer, update, topology, inverse=None, multi_updates=True):
                     multi_updates)
             else:
                 inner = normalize_path(outer + path)
-                if isinstance(value, dict):
+                # (an update that names its own updater is one value for
+                # the variable, not a dictionary of sub-updates)
+                if isinstance(value, dict) and '_updater' not in value:
                     if multi_updates:
                         inverse = update_in(
                             inverse,
